@@ -181,6 +181,8 @@ def exc_site(exc: BaseException) -> str:
 
 
 def raises(exc: BaseException, subject: str = "") -> Violation:
+    if type(exc).__name__ in ("CaseTimeout", "MemoryError"):
+        return Violation("hangs-or-runs-away", "watchdog", f"{type(exc).__name__} (last library frame {exc_site(exc)})", subject)
     return Violation(
         f"raises:{type(exc).__name__}", exc_site(exc), f"{type(exc).__name__}: {exc}"[:300], subject
     )
